@@ -1016,6 +1016,14 @@ impl<T: Transport, Env: UtpEnvironment> VirtualSocket<T, Env> {
         }
 
         if result.on_ack_result.acked_segments_count > 0 {
+            // After an RTO rewound last_sent_seq_nr, an ACK may cover segments beyond it. Nothing
+            // below SND.UNA will be sent again, so move forward; otherwise the FIN (which is sent
+            // only right after the last sent segment) would never leave.
+            let acked_up_to = self.user_tx_segments.snd_una() - 1;
+            if self.last_sent_seq_nr < acked_up_to {
+                self.last_sent_seq_nr = acked_up_to;
+            }
+
             // Cleanup user side of TX queue, remove the ACKed bytes from the front of it,
             // and notify the writer.
             {
